@@ -1352,14 +1352,30 @@ func compatClass(err error) string {
 	return "invalid"
 }
 
+// heights at which unsigned comparison, signed comparison and subtraction tricks disagree
+var extremeHeights = []uint64{0, 1, 1<<31 - 1, 1 << 31, 1<<31 + 1, 1<<32 - 1, 1 << 32, 1<<32 + 1, 1 << 62, 1<<63 - 1, 1 << 63, 1<<63 + 1,
+	1<<64 - 2, 1<<64 - 1}
+
 func randHeights(n int, sorted bool) []uint64 {
 	hs := make([]uint64, n)
-	small := rng.Chance(2, 3)
+	mode := rng.Intn(6)
 	for i := range hs {
-		if small {
+		switch {
+		case mode <= 2:
 			hs[i] = uint64(rng.Intn(12))
-		} else {
-			hs[i] = rng.Next() >> uint(20+rng.Intn(44))
+		case mode == 3:
+			hs[i] = rng.Next() >> uint(rng.Intn(64))
+		case mode == 4: // realistic heights with some forks "disabled" (MaxUint64) or far away
+			if rng.Chance(1, 2) {
+				hs[i] = extremeHeights[rng.Intn(len(extremeHeights))]
+			} else {
+				hs[i] = uint64(rng.Intn(1000))
+			}
+		default:
+			hs[i] = extremeHeights[rng.Intn(len(extremeHeights))]
+			if rng.Chance(1, 3) {
+				hs[i] += uint64(rng.Intn(5)) - 2 // wraps around at both ends on purpose
+			}
 		}
 	}
 	if sorted {
@@ -1368,16 +1384,27 @@ func randHeights(n int, sorted bool) []uint64 {
 	return hs
 }
 
+// heightGrid: every height next to a configured fork height, next to the extreme values, and half the range away from each
 func heightGrid(lists ...[]uint64) []uint64 {
-	set := map[uint64]bool{0: true, 1: true}
+	set := map[uint64]bool{}
+	add := func(x uint64) {
+		for _, d := range []uint64{0, 1, 2, 7} {
+			if x+d >= x {
+				set[x+d] = true
+			}
+			if x >= d {
+				set[x-d] = true
+			}
+		}
+	}
+	for _, x := range extremeHeights {
+		add(x)
+	}
 	for _, l := range lists {
 		for _, x := range l {
-			set[x] = true
-			set[x+1] = true
-			if x > 0 {
-				set[x-1] = true
-			}
-			set[x+7] = true
+			add(x)
+			add(x + 1<<63) // exactly half the uint64 range away (wraps)
+			add(x + 1<<63 - 1)
 		}
 	}
 	var out []uint64
@@ -1388,24 +1415,47 @@ func heightGrid(lists ...[]uint64) []uint64 {
 	return out
 }
 
+// versionOracles: monotone over the ascending heights; on a valid (non-decreasing) configuration Version(h) >= k exactly when IsVkFork(h)
+func versionOracles(c *config.HardforkConfig, hs []uint64, heights []uint64) {
+	fields := hfFields()
+	valid := sort.SliceIsSorted(hs, func(a, b int) bool { return hs[a] < hs[b] })
+	prev, prevH := int32(-1<<31), uint64(0)
+	for _, h := range heights {
+		v := c.Version(h)
+		if v < prev {
+			run.Fail("hardfork version decreases with the height",
+				map[string]interface{}{"config": hs, "height": h, "version": v, "lower_height": prevH, "version_at_lower_height": prev})
+		}
+		prev, prevH = v, h
+		if !valid {
+			continue
+		}
+		for k, f := range fields {
+			m := reflect.ValueOf(c).MethodByName("Is" + f + "Fork")
+			if !m.IsValid() {
+				continue
+			}
+			is := m.Call([]reflect.Value{reflect.ValueOf(types.BlockNo(h))})[0].Bool()
+			if (v >= int32(k+2)) != is {
+				run.Fail(fmt.Sprintf("Is%sFork disagrees with Version >= %d on a valid configuration", f, k+2),
+					map[string]interface{}{"config": hs, "height": h, "version": v, "is_fork": is})
+			}
+		}
+	}
+}
+
 func hardforks() {
 	n := len(hfFields())
 	for i := 0; i < run.Pick(700, 12000); i++ {
 		hs := randHeights(n, rng.Chance(3, 4))
 		c := mkCfg(hs)
-		// version table on the grid of all heights next to a fork height; oracle: monotone in the height
-		prev := int32(-1 << 31)
-		for _, h := range heightGrid(hs) {
+		// version table on the grid of all heights next to a fork height / an extreme value; oracles: monotone, agrees with IsVkFork
+		grid := heightGrid(hs)
+		for _, h := range grid {
 			v := c.Version(h)
 			run.Op(fmt.Sprintf("ver %d %s", h, natsStr(hs)), fmt.Sprint(v), v != 0)
-			if v < prev {
-				run.Fail("hardfork version decreases with the height", map[string]interface{}{"config": hs, "height": h, "version": v, "version_below": prev})
-			}
-			prev = v
-			if (v >= 2) != c.IsV2Fork(h) && n >= 1 && sort.SliceIsSorted(hs, func(a, b int) bool { return hs[a] < hs[b] }) {
-				run.Fail("IsV2Fork disagrees with Version >= 2 on a valid configuration", map[string]interface{}{"config": hs, "height": h})
-			}
 		}
+		versionOracles(c, hs, grid)
 		run.Count("version-table")
 
 		// the database copy: what WriteHardfork stores (JSON), then altered
